@@ -19,6 +19,10 @@ ENGINES = [
     {"name": "session-spec", "path": "spec/Exmex.tla spec/MC_Exmex.tla spec/Judge_Calc.tla spec/Field.tla spec/Jets.tla spec/PartialImpl.tla spec/MC_Diff.tla spec/DiffTables.tla",
      "serves_properties": ["C05", "C09", "C10", "C11", "C12"],
      "kind_free_text": "session machine (pool of immutable expressions, one action per API call), field and power-series semantics, transcription of the differentiation rules; history enumeration; trace validation of recorded sessions"},
+    {"name": "float-axioms", "path": "spec/FloatSem.tla spec/Judge_Float.tla", "serves_properties": ["C19"],
+     "kind_free_text": "fixed-point axioms of the default float operators and constants + special-value class table, evaluated by TLC on recorded values"},
+    {"name": "piecewise-judge", "path": "spec/Piecewise.tla spec/Judge_ValDiff.tla", "serves_properties": ["C18"],
+     "kind_free_text": "power-series judge with exact rational branch selection for value-typed piecewise derivatives read through the dump hook"},
     {"name": "recorder", "path": "harness/", "serves_properties": ["C01", "C02", "C03"],
      "kind_free_text": "Rust crate driving the real exmex with a free term algebra as data type and run-time operator tables; records observations as ndjson"},
     {"name": "judge", "path": "spec/Judge_Expr.tla", "serves_properties": ["C01", "C02", "C03"],
@@ -94,5 +98,8 @@ CLAIMS = {
     "C18": dict(category=MC, technique="power-series judge extended to piecewise expressions (Piecewise.tla: branch selection by exact rational evaluation of the conditions) applied to derivative structures recorded through the verif_dump hook; rule table model-checked by MC_Diff",
                 text="Seeded programs `f if cond else g` (nested, arithmetic around, elementary functions at their base points, comparison conditions strictly inside a branch) over the value type: parse_val(text).partial(k) must be, as a power series at the point, the derivative of the branch the conditions select; conditions must survive untouched; out-of-range indices are errors.",
                 note="Trusted: TLC, Piecewise.tla/Jets.tla, the hook dump of FlatExVal. Integers and floats are identified as reals; programs whose own value depends on integer division fall under known finding F6. Known findings F6 and F10 are reported, not counted."),
+    "C19": dict(category="other", technique="axiomatic TLA+ characterisation of the float operators in fixed point (FloatSem.tla), evaluated by TLC on values recorded from the real operator table",
+                text="Every one of the 34 operators and 6 constants of FloatOpsFactory for f32 and f64 is applied on a grid and on special values, directly and through parsed infix/call-form expressions; TLC checks each result against exact fixed-point arithmetic, Taylor polynomials or the defining equation of the named function (incl. argument order and quadrant of atan2, principal ranges of the inverse functions, natural log for log and ln) at a tolerance of 3e-3, and special values against a class table.",
+                note="Not decided: accuracy to within floating-point rounding (the technique has no floats) - identity/argument order/special classes only. Trusted: TLC, FloatSem.tla, the recorder's rounding to fixed point."),
 }
 NOT_YET = {}
